@@ -72,7 +72,8 @@ def parse_load(lines):
             cur[2] = int(l.split()[1])
         elif l.startswith("CACHED "):
             _, i, txt = l.split(" ", 2)
-            cached[int(i)] = txt
+            if txt != "NULL":     # isLoaded(id) can answer true for an id that was never loaded (judyLArray::find leaves
+                cached[int(i)] = txt   # _success set for an empty slot, e.g. id 0 or 256); loadInstance(id) is the authority
         elif l.startswith("INV "):
             inv.append(l)
         elif l == "END":
